@@ -231,6 +231,43 @@ def run(ctx, prop):
                 # repaired (fix 7e13aff): refused with a diagnostic, no stack overflow
                 oracle_fail.append({"case": {"kind": "included-cycle"}, "failures": [
                     {"error": f"{prof} build " + ("crashed on" if crashed else "accepted") + " a cyclic struct of an included file used as a parameter type", "rc": rc}]})
+    # ---- file trees (several files): include cycles closed through `../`, `./` and nested
+    # spellings must be refused with a diagnostic on both profiles; valid multi-include sets
+    # must give the same bytes on both profiles for every backend, run after run
+    trees = {
+        "cycle-dotdot": ({"main.idl": 'include "sub/types.idl"\ninterface I { method m(); };\n',
+                          "sub/types.idl": 'include "../all.idl"\nstruct T { uint64 a; };\n', "all.idl": 'include "sub/types.idl"\n'}, False),
+        "cycle-dot": ({"main.idl": 'include "./a.idl"\n', "a.idl": 'include "./d/b.idl"\nstruct A { uint8 a; };\n',
+                       "d/b.idl": 'include "../a.idl"\nstruct B { uint8 a; };\n'}, False),
+        "cycle-deep-dotdot": ({"main.idl": 'include "x/y/z.idl"\n', "x/y/z.idl": 'include "../../x/w.idl"\n', "x/w.idl": 'include "y/../y/z.idl"\n'}, False),
+        "multi-include": ({"main.idl": 'include "ialpha.idl"\ninclude "ibeta.idl"\ninclude "igamma.idl"\ninclude "sub/idelta.idl"\n'
+                                       'interface IAll : IAlpha { method all(in SB b, out SG g); };\n',
+                           "ialpha.idl": 'interface IAlpha { method a(); };\n', "ibeta.idl": 'struct SB { uint32 v; };\ninterface IBeta { method b(in SB s); };\n',
+                           "igamma.idl": 'struct SG { uint64 v; };\nconst uint16 KG = 7;\n', "sub/idelta.idl": 'interface IDelta { method d(); };\n'}, True),
+    }
+    for tname, (tree, valid) in trees.items():
+        with C.Scratch() as tmp:
+            for rel, text_ in tree.items():
+                os.makedirs(os.path.dirname(os.path.join(tmp, rel)), exist_ok=True)
+                open(os.path.join(tmp, rel), "w").write(text_)
+            for b in (["c", "cpp-skel", "rust", "java"] if valid else ["c", "rust"]):
+                outs_ = []
+                for rep in range(3 if valid else 1):
+                    for prof in ("debug", "release"):
+                        o_ = os.path.join(tmp, f"o-{b}-{prof}-{rep}")
+                        if b in ("rust", "java"):
+                            os.makedirs(o_, exist_ok=True)
+                        rc, err = run_bin(ctx.idlc[prof], os.path.join(tmp, "main.idl"), b, o_)
+                        ctx.bump("evaluations")
+                        crashed = rc == "timeout" or (isinstance(rc, int) and (rc < 0 or rc in (134, 139)))
+                        if crashed:
+                            oracle_fail.append({"case": {"kind": "tree-" + tname, "backend": b}, "failures": [{"error": f"{prof} build crashed / did not terminate", "rc": rc, "stderr": err[-200:].decode("utf-8", "replace")}]})
+                        elif valid != (rc == 0):
+                            oracle_fail.append({"case": {"kind": "tree-" + tname, "backend": b}, "failures": [{"error": f"{prof} build " + ("rejected a valid file set" if valid else "accepted a cyclic include graph"), "rc": rc}]})
+                        outs_.append(read_out(o_) if rc == 0 else None)
+                if valid and any(o != outs_[0] for o in outs_):
+                    oracle_fail.append({"case": {"kind": "tree-" + tname, "backend": b}, "failures": [{"error": "debug and release builds (or repeated runs) wrote different bytes for the same file set"}]})
+                distinct.add(("tree-" + tname, b))
     known_lines = []
     for kid, k in listed.items():
         if kid in known_seen:
